@@ -360,12 +360,16 @@ def mergeOldestTwo (level : Nat) : List File → Option (List File)
         else none
       | [] => none
 
-/-- `compactToLevel` on the two oldest files of `level`. -/
+/-- `compactToLevel` on the two oldest files of `level` (the active log file, level 0, is
+    never part of it: the walk from the oldest end stops at the first file below the level). -/
 def compactLevelFiles (files : List File) (level : Nat) : List File :=
   if level < 1 ∨ level > 6 then files else
-  match mergeOldestTwo level files.reverse with
-  | some r => r.reverse
-  | none => files
+  match files with
+  | [] => []
+  | active :: rest =>
+    match mergeOldestTwo level rest.reverse with
+    | some r => active :: r.reverse
+    | none => files
 
 /-- one step of what `Partition.compact` schedules: the newest non-active log file is
     compacted; if there is none, the lowest level with two selectable files is merged. -/
@@ -383,7 +387,7 @@ def settleStep (files : List File) : Option (List File) :=
   match compactNewestLog files with
   | some fs => some fs
   | none =>
-    ([1, 2, 3, 4, 5, 6].find? (fun l => (mergeOldestTwo l files.reverse).isSome)).map
+    ([1, 2, 3, 4, 5, 6].find? (fun l => (mergeOldestTwo l files.tail.reverse).isSome)).map
       (fun l => compactLevelFiles files l)
 
 /-- the partition's background compaction run to its fixpoint (what happens after `Open`,
